@@ -34,7 +34,7 @@ def evaluate(ctx, scenarios, tag, do_sat=True):
     shard = 60
     files = []
     for k in range(0, len(items), shard):
-        body = clist(["s_check %s %s" % (lit, "true" if do_sat else "false") for _, _, lit, _ in items[k:k + shard]])
+        body = clist(["s_check2 %s %s %s" % (lit, "true" if do_sat else "false", solvegen.insts_literal(res)) for _, _, lit, res in items[k:k + shard]])
         files.append(("%s_%d" % (tag, k // shard), HEADER + "Definition codes : list Z := %s.\nEval vm_compute in codes.\n" % body))
     outs = core.coq_eval_many(ctx, files, timeout=900)
     results = []
@@ -86,6 +86,9 @@ def run_generic(ctx, prop, bits, what, n_quick, n_thorough, softs=False, small=T
                                     "code": code, "model_terms_agree": not (code & 1)})
             elif code & 1 and not ignore_terms:
                 ctx.tie_broken.append("model's lowering != recorded solver terms in scenario %r" % (brief(scs[si], oi),))
+            elif code & 512 and not ignore_terms:
+                ctx.tie_broken.append("statements of one rand set of the model (Rand/Randset.build) were handed to different solver "
+                                      "instances in scenario %r" % (brief(scs[si], oi),))
     results, crashed = evaluate(ctx, scenarios, (tag or prop).lower(), do_sat=small)
     judge(scenarios, results, crashed)
     if ctx.tie_broken and not ctx.violations:
